@@ -15,6 +15,21 @@ import (
 	"github.com/cube2222/octosql/physical"
 )
 
+// maxRepeatedStringLength bounds the result of string * int.
+const maxRepeatedStringLength = 1 << 30
+
+// repeatString implements string * int. strings.Repeat panics on a negative count
+// and on a result that is too long, both of which are errors of the query here.
+func repeatString(s string, count int64) (octosql.Value, error) {
+	if count < 0 {
+		return octosql.ZeroValue, fmt.Errorf("string repeat count must not be negative: %d", count)
+	}
+	if len(s) > 0 && count > int64(maxRepeatedStringLength/len(s)) {
+		return octosql.ZeroValue, fmt.Errorf("string repeat result too long: %d times %d bytes", count, len(s))
+	}
+	return octosql.NewString(strings.Repeat(s, int(count))), nil
+}
+
 func FunctionMap() map[string]physical.FunctionDetails {
 	return map[string]physical.FunctionDetails{
 		// Comparisons
@@ -304,7 +319,7 @@ func FunctionMap() map[string]physical.FunctionDetails {
 					OutputType:    octosql.String,
 					Strict:        true,
 					Function: func(values []octosql.Value) (octosql.Value, error) {
-						return octosql.NewString(strings.Repeat(values[0].Str, int(values[1].Int))), nil
+						return repeatString(values[0].Str, values[1].Int)
 					},
 				},
 				{
@@ -312,7 +327,7 @@ func FunctionMap() map[string]physical.FunctionDetails {
 					OutputType:    octosql.String,
 					Strict:        true,
 					Function: func(values []octosql.Value) (octosql.Value, error) {
-						return octosql.NewString(strings.Repeat(values[1].Str, int(values[0].Int))), nil
+						return repeatString(values[1].Str, values[0].Int)
 					},
 				},
 			},
